@@ -435,6 +435,22 @@ func c16RunTyped(src string, env interface{}) (cerr error, out interface{}, stat
 }
 
 func judgeC16(c *core.Case, cfg *core.Config) core.Verdict {
+	if c.Str("kind") == "catalogue" && c.Str("type") == "LocalSeq" {
+		// distinct types that print the same name, judged one after the other IN ONE PROCESS (anything the
+		// library remembers per type name would leak from one to the next)
+		var last core.Verdict
+		for _, k := range []string{"LocalA", "LocalB", "LocalA-again", "LocalB"} {
+			c2 := *c
+			c2.P = map[string]interface{}{"kind": "catalogue", "type": k}
+			last = judgeC16(&c2, cfg)
+			if last.Violation != "" {
+				last.Violation = "(after judging the other same-named type) " + last.Violation
+				return last
+			}
+		}
+		last.Key = c.Source
+		return last
+	}
 	v := core.Verdict{Key: c.Source}
 	var env interface{}
 	var envType reflect.Type
@@ -691,6 +707,7 @@ func TestC16(t *testing.T) {
 			keys = append(keys, k)
 		}
 		sort.Strings(keys)
+		keys = append(keys, "LocalSeq")
 		for _, k := range keys {
 			c := pcase("C16", "names")
 			c.P["kind"], c.P["type"] = "catalogue", k
